@@ -26,7 +26,7 @@ Definition check_ent (sk : scope_kind) (body : list sstmt) (e : ent) : option na
   if top_level e then
     if valid_for sk body (e_kind e) (e_name e)
        && negb (perm_eqb (e_perm e) (fortran_perm sk body (e_kind e) (e_name e)))
-    then Some (match sk with ScModule => region body (e_name e) | ScSubmodule => 0 end)
+    then Some (match sk with ScModule => region body (e_kind e) (e_name e) | ScSubmodule => 0 end)
     else None
   else
     match find_type (e_owner e) body with
